@@ -115,7 +115,18 @@ def gen_case(rng, nq, big=False):
             q = {'after': None, 'before': None, 'limit': None}
         q['succeeded'] = rng.random() < 0.6
         q['now'] = now
+        # what the front end does with an answer (fe.api.df_model_statistics
+        # relabels the dicts it was handed): later answers must not notice
+        q['relabel'] = rng.random() < 0.35
         queries.append(q)
+        r = rng.random()
+        if r < 0.18:
+            node = rng.choice(TASKS + [TASKS[0] + '.sv', 'no.such'])
+            queries.append({'kind': 'stats', 'node': node, 'boot': bound(), 'now': now})
+        elif r < 0.30:
+            queries.append({'kind': 'api', 'which': rng.choice(['failed', 'succeeded']),
+                            'before': rng.choice([None, bound(), bound()]),
+                            'limit': rng.choice([None, 1, 2, 3, 7, 50]), 'now': now})
     return {'appends': appends, 'queries': queries}
 
 
@@ -129,7 +140,11 @@ WITNESS = {
         {'after': [2026, 1, 9, 10, 0, 0, 0], 'before': [2026, 1, 10, 9, 0, 0, 0], 'limit': None, 'succeeded': True, 'now': [2026, 2, 1, 0, 0, 0, 0]},
         {'after': None, 'before': [2026, 1, 10, 9, 0, 0, 0], 'limit': 3, 'succeeded': True, 'now': [2026, 2, 1, 0, 0, 0, 0]},
         {'after': None, 'before': [2026, 1, 10, 9, 0, 0, 0], 'limit': 10, 'succeeded': True, 'now': [2026, 2, 1, 0, 0, 0, 0]},
-        {'after': None, 'before': None, 'limit': 10, 'succeeded': True, 'now': [2026, 1, 9, 12, 0, 0, 0]}],
+        {'after': None, 'before': None, 'limit': 10, 'succeeded': True, 'now': [2026, 1, 9, 12, 0, 0, 0]},
+        {'kind': 'stats', 'node': 'tsk.a', 'boot': [2025, 12, 1, 0, 0, 0, 0], 'now': [2026, 2, 1, 0, 0, 0, 0]},
+        {'kind': 'stats', 'node': 'tsk.a', 'boot': [2025, 12, 1, 0, 0, 0, 0], 'now': [2026, 2, 1, 0, 0, 0, 0]},
+        {'after': None, 'before': None, 'limit': 10, 'succeeded': True, 'now': [2026, 2, 1, 0, 0, 0, 0], 'relabel': True},
+        {'kind': 'api', 'which': 'succeeded', 'before': None, 'limit': 10, 'now': [2026, 2, 1, 0, 0, 0, 0]}],
 }
 
 
@@ -146,6 +161,24 @@ def spec_window(appends, lo, hi, succeeded):
     st = 'success' if succeeded else 'failure'
     es = [a for a in appends if a['status'] == st and lo < ticks(a['completed']) < hi]
     return sorted(es, key=skey, reverse=True)
+
+
+def node_of(name):
+    return '.'.join(name.split('.')[:2]) if name.count('.') > 1 else name
+
+
+def spec_stats(appends, node, lo, hi):
+    '''df_model_statistics for a node that is neither executing nor pending:
+    None or (date ticks, run id, 0 succeeded / 1 failed / 2 both)'''
+    m = [a for a in appends if a['task'] == node_of(node) and a['status'] in ('success', 'failure')
+         and lo < ticks(a['completed']) < hi]
+    if not m:
+        return None
+    rid = max(a['runid'] for a in m)
+    m = [a for a in m if a['runid'] == rid]
+    st = {a['status'] for a in m}
+    return (max(ticks(a['completed']) for a in m), rid,
+            2 if len(st) > 1 else 0 if st == {'success'} else 1)
 
 
 def coq_entry(a, tcode, kcode):
@@ -190,6 +223,9 @@ def run(ctx):
     fp.update(core.fingerprint('Python/dawgie/pl/logger/chronicle.py',
                                ['_load', '_most_recent_first', 'append', 'find']))
     fp.update(core.fingerprint('Python/dawgie/pl/schedule.py', ['complete']))
+    fp.update(core.fingerprint('Python/dawgie/fe/api/__init__.py', ['df_model_statistics']))
+    fp.update({'api.' + k: v for k, v in core.fingerprint(
+        'Python/dawgie/fe/api/schedule.py', ['failed', 'succeeded']).items()})
     ctx.note('fingerprints', fp)
     escalate = fp != EXPECTED_FP
     ctx.note('escalated_by_fingerprint', escalate)
@@ -261,6 +297,35 @@ def run(ctx):
         for qi, (q, ans) in enumerate(zip(case['queries'], res['answers'])):
             rep = {'case': {'appends': appends, 'queries': [q]}, 'query': q,
                    'theorem': 'C18_window / C18_newest'}
+            if q.get('kind') == 'stats':
+                hist['stats'] = hist.get('stats', 0) + 1
+                rep['theorem'] = 'C18_stats'
+                if 'exc' in ans:
+                    answers.append(('exc', ans['exc']))
+                    viol('find-exception', {'exception': ans['exc'], 'via': 'df_model_statistics'},
+                         'df_model_statistics(%r) raises %s: %s' % (q['node'], ans['exc'], ans.get('msg')), rep)
+                    continue
+                c = ans['stats']
+                if c and set(c) == {'date', 'runid', 'status'} and c['status'] in ('succeeded', 'failed', 'both'):
+                    got_s = ((dt.datetime.fromisoformat(c['date']) - EPOCH) // dt.timedelta(microseconds=1),
+                             c['runid'], {'succeeded': 0, 'failed': 1, 'both': 2}[c['status']])
+                elif c == {}:
+                    got_s = None
+                else:
+                    got_s = ('other', json.dumps(c, sort_keys=True))
+                answers.append(('stats', got_s))
+                want_s = spec_stats(appends, q['node'], ticks(q['boot']), ticks(q['now']))
+                if want_s is not None:
+                    hist['stats_nonempty'] = hist.get('stats_nonempty', 0) + 1
+                if got_s != want_s:
+                    viol('stats-wrong', {'lost_entries': want_s is not None and got_s is None},
+                         'df_model_statistics(%r) [boot=%s now=%s] reports %r, the recorded history says %r'
+                         % (q['node'], mkdt(q['boot']).isoformat(), mkdt(q['now']).isoformat(), got_s, want_s),
+                         dict(rep, expected=want_s, observed=got_s))
+                continue
+            if q.get('kind') == 'api':
+                hist['api'] = hist.get('api', 0) + 1
+                q = dict(q, after=None, succeeded=q['which'] == 'succeeded')
             A, B, L = q['after'], q['before'], q['limit']
             if 'exc' in ans:
                 answers.append(('exc', ans['exc']))
@@ -273,6 +338,12 @@ def run(ctx):
             got = ans['ok']
             answers.append(('ok', got))
             hist['empty_answer'] += not got
+            hist['relabelled'] = hist.get('relabelled', 0) + bool(q.get('relabel'))
+            if not set(ans.get('labels', [])) <= {'success' if q['succeeded'] else 'failure'}:
+                viol('find-foreign', {'labels': True},
+                     'find(%s) hands out entries whose status reads %r (the journal records success/failure/invalid)'
+                     % (json.dumps(q), ans['labels']), rep)
+                continue
             if A is None and B is None and L is None:
                 viol('find-no-argument', {}, 'find() with no argument returned %r' % (got,), rep)
                 continue
@@ -350,12 +421,21 @@ def run(ctx):
     kcode = {n: i for i, n in enumerate(sorted(TASKS))}
     pre = ('Definition jfiles (j : journal) := map (fun f => (f_day f, f_runid f, map e_id (f_entries f))) j.\n'
            'Definition out (r : result) : list Z := match r with Ok l => 0 :: map e_id l '
-           '| ValueError => [1] | OutOfFuel => [2] end.\n')
+           '| ValueError => [1] | OutOfFuel => [2] end.\n'
+           'Definition sout (r : option stat) : list Z := match r with None => [2] | Some NoStat => [3] '
+           '| Some (Stat d r s) => [4; d; r; s] end.\n')
     exprs = []
     for ci, case in enumerate(cases):
         jdef = 'fold_left Chron.append [%s] []' % '; '.join(coq_entry(a, tcode, kcode) for a in case['appends'])
         qs = []
         for q in case['queries']:
+            if q.get('kind') == 'stats':
+                qs.append('sout (Chron.stats greg j %s %s %s)' % (
+                    core.to_coq(ticks(q['boot'])), core.to_coq(ticks(q['now'])),
+                    core.to_coq(kcode.get(node_of(q['node']), 99))))
+                continue
+            if q.get('kind') == 'api':
+                q = dict(q, after=None, succeeded=q['which'] == 'succeeded')
             qs.append('out (Chron.find greg j %s %s %s %s %s)' % (
                 coq_opt(None if q['after'] is None else ticks(q['after'])),
                 coq_opt(None if q['before'] is None else ticks(q['before'])),
@@ -373,7 +453,8 @@ def run(ctx):
             mism = (ci, 'journal files', mf, ifiles, None)
             break
         for qi, (m, o) in enumerate(zip(mans, ians)):
-            mo = ('ok', m[1:]) if m[0] == 0 else ('exc', 'ValueError') if m[0] == 1 else ('fuel', None)
+            mo = (('ok', m[1:]) if m[0] == 0 else ('exc', 'ValueError') if m[0] == 1 else ('fuel', None)
+                  if m[0] == 2 else ('stats', None) if m[0] == 3 else ('stats', tuple(m[1:])))
             if mo != o:
                 mism = (ci, 'find', mo, o, case['queries'][qi])
                 break
@@ -404,4 +485,7 @@ EXPECTED_FP = {
     'append': '75ce4516c0903a1d',
     'complete': 'fb12116b841dc480',
     'find': '88671a5e0c5a331e',
+    'api.failed': '1a70414eaef554b4',
+    'api.succeeded': '1a1dcc843bc5a858',
+    'df_model_statistics': 'deef049c933606b0',
 }
